@@ -195,21 +195,29 @@ def run(res, tier):
     else:
         res.ok("R-DISPATCH", "mju_dispatch:bracket", None)
     # serial fallback
-    loops = [n for n in cir.walk(fn) if n.get("k") == "ForStmt"]
+    # a loop (for or while) that counts a local from 0 to ntask by one and calls func(m, d, arg, 0, <that local>) once per
+    # iteration, unconditionally inside the loop
+    from .c26 import counted_loop
+    from .. import norm
     okser = False
-    for lp in loops:
-        kids = list(cir.kids(lp)) + [None] * 5
-        init, cond, body = kids[0], kids[2], kids[4]
-        iv = None
-        if init is not None and init.get("k") == "DeclStmt":
-            vd = [x for x in cir.kids(init) if x is not None and x.get("k") == "VarDecl"]
-            if vd and vd[0].get("init") and cir.text([c for c in cir.kids(vd[0]) if c][-1]) == "0":
-                iv = vd[0].get("n")
-        if iv is None or cir.text(cond) != f"{iv} < {pn}":
+    fbody = cir.body(fn)
+    for lp in cir.walk(fn):
+        if lp.get("k") not in ("ForStmt", "WhileStmt"):
             continue
+        body = cir.kids(lp)[-1]
         calls = [c for c in cir.walk(body) if cir.is_call(c) and cir.text(cir.kids(c)[0]) == pf]
-        if len(calls) == 1 and [cir.text(a) for a in cir.args(calls[0])] == [pm, pd, pa, "0", iv]:
-            okser = True
+        if len(calls) != 1:
+            continue
+        a_ = cir.args(calls[0])
+        iv = cir.strip(a_[4]) if len(a_) == 5 else None
+        if iv is None or iv.get("k") != "DeclRefExpr" or [cir.text(x) for x in a_[:4]] != [pm, pd, pa, "0"]:
+            continue
+        cl = counted_loop(fbody, lp, (iv.get("ref") or {}).get("id"))
+        if cl["problems"] or cl["start"] != "0" or cl["bound"] != pn:
+            continue
+        if norm.guards(body, calls[0]):
+            continue        # conditional inside the loop: some task ids would be skipped
+        okser = True
     if okser:
         res.ok("R-DISPATCH", "mju_dispatch:serial-fallback", None)
     else:
